@@ -43,7 +43,7 @@ fn range(u: &mut Unstructured) -> RangeSpec {
 fn script(u: &mut Unstructured, wide: bool) -> Vec<Step> {
     let n = u.int_in_range(0usize..=8).unwrap_or(0);
     (0..n)
-        .map(|_| match u.int_in_range(0u8..=if wide { 15 } else { 4 }).unwrap_or(0) {
+        .map(|_| match u.int_in_range(0u8..=if wide { 16 } else { 4 }).unwrap_or(0) {
             0 | 1 => Step::Next,
             2 | 3 => Step::NextBack,
             4 => Step::Dbg,
@@ -57,6 +57,7 @@ fn script(u: &mut Unstructured, wide: bool) -> Vec<Step> {
             12 => Step::StepBy(u.int_in_range(0u8..=2).unwrap_or(0)),
             13 => Step::RFold,
             14 => Step::RevLast,
+            15 => Step::Search,
             _ => Step::RevCollect,
         })
         .collect()
@@ -74,7 +75,7 @@ fn hint(u: &mut Unstructured) -> Hint {
 
 fn op(u: &mut Unstructured) -> Op {
     let cnt = |u: &mut Unstructured| u.int_in_range(0u32..=40).unwrap_or(0);
-    match u.int_in_range(0u8..=47).unwrap_or(0) {
+    match u.int_in_range(0u8..=48).unwrap_or(0) {
         0 | 1 | 2 => Op::PushBack,
         3 | 4 => Op::PushFront,
         5 => Op::TryPushBack,
@@ -121,6 +122,7 @@ fn op(u: &mut Unstructured) -> Op {
         44 => Op::FromArray(u.int_in_range(0u32..=19).unwrap_or(0)),
         45 => Op::FromIter(cnt(u), hint(u)),
         46 => Op::MoveBuf,
+        47 => Op::CmpCap(u.int_in_range(0u32..=8).unwrap_or(0), u.arbitrary::<u16>().unwrap_or(0) as u32, u.arbitrary::<u16>().unwrap_or(0) as u32, if u.arbitrary().unwrap_or(false) { Some(idx(u)) } else { None }),
         _ => Op::DropBuf,
     }
 }
